@@ -324,6 +324,7 @@ func (fr *Frame) composite(st *State, n *ast.CompositeLit, addr bool) Val {
 		ed := x.u.fresh("emptydom", "(Array "+ks+" Bool)")
 		q := "k$q" + fmt.Sprint(x.nextQ())
 		x.u.fact(fmt.Sprintf("(forall ((%s %s)) (! (not (select %s %s)) :pattern ((select %s %s))))", q, ks, ed, q, ed, q))
+		x.u.fact(fmt.Sprintf("(= (%s %s) 0)", x.mapcardFn(ks), ed))
 		x.heapStore(st, dom, r, ed)
 		for _, el := range n.Elts {
 			kv, ok := el.(*ast.KeyValueExpr)
